@@ -20,6 +20,9 @@ def configs():
             for poll in (False, True):
               out.append({"deco": deco, "host": host, "live_spy": ls, "live_trace": lt,
                           "drive": drive, "poll": poll})
+          # all events queued first, then ONE complete_circuit runs them
+          out.append({"deco": deco, "host": host, "live_spy": ls, "live_trace": lt,
+                      "drive": "batch", "poll": False})
       else:
         out.append({"deco": deco, "host": host, "live_spy": False, "live_trace": False,
                     "drive": "dispatch", "poll": False})
@@ -89,6 +92,13 @@ def transcript(case, cfg):
   try:
     chart.start_at(rt.fns[case["start"]])
     out.append((list(rt.log), chart.state_name))
+    if cfg["drive"] == "batch":
+      rt.clear()
+      for sig in case["events"]:
+        chart.post_fifo(Event(signal=signals[sig]))
+      chart.complete_circuit()
+      out.append((list(rt.log), chart.state_name))
+      return out
     for sig in case["events"]:
       rt.clear()
       e = Event(signal=signals[sig])
@@ -125,7 +135,7 @@ class C18(Prop):
   rule = ("Hypothesis-generated chart x start state x event list, each executed under %d "
           "configurations: {no decorator, the spy decorator, some other functools.wraps decorator} x "
           "{plain, instrumented, queued with instrumentation on/off} x {live spy} x {live trace} x "
-          "{dispatch directly / post + complete_circuit} x {read-only observers current_state(), "
+          "{dispatch directly / post + complete_circuit per event / all events posted and run by one complete_circuit} x {read-only observers current_state(), "
           "spy(), trace(), spy_rtc() polled between steps or not} and {a started ActiveObject under the deterministic scheduler, with live output through its writer thread}. "
           "Differential oracle: the handlers' action log (entries, exits, inits, user-signal "
           "clauses) and the resting state after start_at and after every event are identical in "
@@ -151,8 +161,21 @@ class C18(Prop):
         deep = True
     base = transcript(case, CONFIGS[0])
     stats.case(case, deep, ["configs_%d" % len(CONFIGS)] + (["deep_transition"] if deep else []))
+    # what a batch run must show: the start, then every event's actions in one piece
+    flat = base
+    if len(base) == len(case["events"]) + 1 and all(isinstance(b[0], list) for b in base):
+      flat = [base[0], (sum((b[0] for b in base[1:]), []), base[-1][1])]
     for cfg in CONFIGS[1:]:
       t = transcript(case, cfg)
+      if cfg["drive"] == "batch":
+        if t != flat:
+          k = 0 if t[:1] != flat[:1] else 1
+          raise PropertyViolation(
+            "%s: %s gives %s (event by event, joined) but %s gives %s" % (
+              "start_at" if k == 0 else "events %s run by one complete_circuit" % case["events"],
+              cfg_name(CONFIGS[0]), flat[k] if k < len(flat) else None, cfg_name(cfg),
+              t[k] if k < len(t) else None), "C18:differs")
+        continue
       if t != base:
         k = next(i for i in range(max(len(t), len(base)))
                  if i >= len(t) or i >= len(base) or t[i] != base[i])
